@@ -361,6 +361,9 @@ class Model:
         prim_list = lambda x: isinstance(x, list) and all((isinstance(y, (int, float, str)) or y is None) for y in x)
         if prim_list(a) and prim_list(b) and op in ("Eq", "NotEq"):
             return (a == b) if op == "Eq" else (a != b)          # two lists of known plain values
+        prim_tuple = lambda x: isinstance(x, PyTuple) and all((isinstance(y, (int, float, str, bool)) or y is None) for y in x.items)
+        if prim_tuple(a) and prim_tuple(b) and op in ("Eq", "NotEq"):
+            return (list(a.items) == list(b.items)) if op == "Eq" else (list(a.items) != list(b.items))          # two tuples of known plain values
         if op in ("Is", "IsNot") and (a is None or b is None) and (isinstance(a, Ser) or isinstance(b, Ser)):
             return op == "IsNot"          # identity: a Series object is never None (== None would be element-wise)
         if (a is None or b is None) and not isinstance(a, Ser) and not isinstance(b, Ser):
